@@ -279,7 +279,8 @@ IN_STRING = ["foo('{v}')", "hlp = '{v}'", "hlp = \"{v}\""]
 CALLEE = ["{v}(1)", "{v}()", "hlp = {v}(2)"]
 INDEXED = ["self.{v}[1] = 2", "hlp = ob.{v}[0]"]
 FILLER = ["foo()", "hlp = 1", "self.bar(2)", "; a note", "hlp = hlp + 1", "ob.fld = nil", "; {c} is mentioned in a comment only"]
-COND_WITH = ["if {v} > 0|endif", "while {v}|endwhile", "for i = 1 to {v}|endfor", "for i = 1 to 3 step {v}|endfor", "forEach it in {v}|endfor", "forEach {v} in lst|endfor"]
+COND_WITH = ["if {v} > 0|endif", "while {v}|endwhile", "for i = 1 to {v}|endfor", "for i = 1 to 3 step {v}|endfor", "forEach it in {v}|endfor", "forEach {v} in lst|endfor",
+             "forEach it in lst using {v}|endfor", "forEach it in lst downto using {v}|endfor"]
 WRAP = ["if cnd|endif", "if cnd|else|endif", "if cnd|elseif c2|endif", "for i = 1 to 3|endfor", "while cnd|endwhile", "loop|endloop", "repeat|until cnd", "forEach it in lst|endfor", "switch sel|endswitch"]
 TYPES = ["int4", "Int4", "CString", "tRec", "aThing", "boolean"]
 TOPDECLS = ["const cMax = 10", "type tCount : int4", "type tRange : 1 to 10", "type tLetters : 'a' to 'z'", "memory fld{n} : int4", "gfld{n} : int4",
@@ -787,12 +788,19 @@ def describe(case):
 # the check
 # ---------------------------------------------------------------------------------------------
 
+PENDING = []
+
+
 def fail(ctx, what, payload):
-    path = core.write_replay(ctx.pid, ctx.seed, dict(payload, broken=what, engine="unusedvar"))
-    raise core.Violation(what, path, False)
+    """a stage broke without a failing input of the PROPERTY (spec vs oracle, an engine failure): kept pending while the
+    later stages search for a concrete input; raised at the end when they find none"""
+    if not PENDING:
+        path = core.write_replay(ctx.pid, ctx.seed, dict(payload, broken=what, engine="unusedvar"))
+        PENDING.append(core.Violation(what, path, False))
 
 
 def correspondence(ctx, broken_obligations=()):
+    del PENDING[:]
     hb = diff.Engines.harness()
     mb = diff.Engines.model()
     cases, meta = gen_cases(ctx)
@@ -815,6 +823,7 @@ def correspondence(ctx, broken_obligations=()):
     for c, o, s in zip(valid, io, so):
         if "|" not in s:
             fail(ctx, "engine unusedvarspec failed", dict(case=c, case_readable=dec(c), model=s))
+            continue
         flags, spec, spec_ext = s.split("|", 2)
         flags_hist[flags] += 1
         text = dec(c)
@@ -856,7 +865,9 @@ def correspondence(ctx, broken_obligations=()):
                                 shrinker=shrinker, nontrivial=nontrivial_of(meta), describe=describe)
     except core.Violation as v:
         v.coverage = dict(getattr(v, "coverage", {}) or {}, **extra)
-        raise
+        if v.found_input or not PENDING:
+            raise
+        cov = dict(v.coverage)
     cov.update(extra)
 
     # 3. the witnesses of the *_refuted theorems still behave as recorded, on both sides
@@ -875,6 +886,9 @@ def correspondence(ctx, broken_obligations=()):
         if impl_u != sorted(d for d in spec.split(";") if d):
             fail(ctx, "a tree satisfying every guard on which the analyser's warnings differ from unused_spec (theorem C15_unused_exact)",
                  dict(case=c, case_readable=dec(c), observed=o.split("#", 1)[1], model=spec))
+    if PENDING:
+        PENDING[0].coverage = cov
+        raise PENDING[0]
     return cov
 
 
